@@ -122,6 +122,19 @@ CLAIMS.update({
             'TLA+ spec + TLC exhaustive, spec->code replay of every state, code->spec trace validation', 'DESIGN.md section 5 C20', 'pixcoord'),
 })
 
+CLAIMS.update({
+    'C14': ('model_checking',
+            'FileIO.tla splits a write into the steps the code takes (text formats: CheckExists -> Serialize -> OpenWrite; FITS: Serialize -> '
+            'writeto) over destination states {absent, file, live symlink, dangling symlink} x overwrite x serialisation outcome; TLC checks '
+            'NoClobber, FailureAtomic, SuccessComplete and that only the last step writes, and that the variant with the steps swapped '
+            'VIOLATES FailureAtomic; every terminal state is executed with real files/symlinks and failing elements injected at each list '
+            'position via Region.write and Regions.write; successful writes are read back by format, extension, content of a renamed copy '
+            'and gzip copies; random write sequences over an evolving directory are validated by Trace_FileIO.tla.',
+            'Real filesystem semantics of the sandbox. Dangling symlink without overwrite and overwrite through a live symlink are modelled '
+            'nondeterministically (both behaviours allowed). Which lists fail to serialise is observed, not predicted.',
+            'TLA+ spec + TLC (incl. negative self-test), terminal states executed on a real filesystem, trace validation', 'DESIGN.md section 5 C14', 'fileio'),
+})
+
 PENDING_REASON = ('specification module for this property is designed in DESIGN.md but its TLA+ module and '
                   'conformance binding are not built yet; not claimed until they are')
 
@@ -189,6 +202,8 @@ ENGINES.append({'name': 'placement', 'path': 'specs/PlacementOps.tla specs/Place
                 'serves_properties': ['C05'], 'kind_free_text': 'exact placement model of RegionMask operations'})
 ENGINES.append({'name': 'pixcoord', 'path': 'specs/PixCoord.tla specs/MC_PixCoord.tla specs/Trace_PixCoord.tla vf/engines/c20.py',
                 'serves_properties': ['C20'], 'kind_free_text': 'array model of PixCoord: broadcasting, indexing, group laws, rotation'})
+ENGINES.append({'name': 'fileio', 'path': 'specs/FileIO.tla specs/Trace_FileIO.tla vf/engines/c14.py',
+                'serves_properties': ['C14'], 'kind_free_text': 'step-ordered write model executed on a scratch filesystem'})
 NA = {}
 
 
